@@ -9,7 +9,7 @@ ID = "C18"
 LEVEL = "exploration"
 EXAMPLES = {"quick": 1000, "thorough": 20000}
 RULE = ("Generated: LP portfolios (contracts with spread/takes, transports with efficiency, storages, multi-commodity "
-        "contracts, order books; market pairs in 85%; 1-3 nodes; grids 2-12 steps x freq x unit x zone; wacc), "
+        "contracts, order books, structured assets with internal nodes, scaled assets; adversarial node names in 25%; market pairs in 85%; 1-3 nodes; grids 2-12 steps x freq x unit x zone; wacc), "
         "monolithic or split, a (node, step) pair chosen among the nodal restrictions and an injection d in "
         "+-{0.05, 0.5, 2} (volumes per step are O(1) by construction). Oracle: the right-hand side of the nodal row "
         "located through map_nodal_restr is set to -d and the problem re-optimised by scipy-HiGHS: "
@@ -19,12 +19,14 @@ RULE = ("Generated: LP portfolios (contracts with spread/takes, transports with 
 ASSUMPTIONS = ["tolerance 4e-5*(1+|V|) + 1e-4*|d|*(1+|price|) (interior-point duals)",
                "scipy-HiGHS re-solves both V(0) and V(d) on EAO's own arrays"]
 
-CLASSES = ["simple", "simple", "contract", "transport", "storage", "storage", "multi", "orderbook"]
+CLASSES = ["simple", "simple", "contract", "transport", "storage", "storage", "multi", "orderbook", "structured", "scaled"]
 
 
 @st.composite
 def _strategy(draw):
-    spec = draw(gen.portfolios(classes=CLASSES, max_assets=4, with_markets=0.85))
+    spec = draw(gen.portfolios_all(classes=CLASSES, max_assets=4, with_markets=0.85))
+    if draw(st.integers(0, 3)) == 0:
+        gen.rename_nodes(draw, spec)
     spec["pick"] = draw(st.integers(0, 10 ** 6))
     spec["d"] = draw(st.sampled_from([0.05, 0.5, 2.0])) * draw(st.sampled_from([1, -1]))
     spec["split"] = draw(st.one_of(st.none(), st.none(), st.none(), st.sampled_from(["6h", "12h", "d"])))
@@ -76,9 +78,12 @@ def check(spec):
     else:
         target, pos, others = r.op, k, []
     raw = lpkit.from_op(target)
-    nrows = [i for i, c in enumerate(raw.cType) if c == "N"]
-    if pos >= len(nrows):
-        return out.fail("map_nodal_restr has more entries than nodal rows")
+    # the portfolio's nodal rows are the last rows of the problem (rows of type N further up belong to
+    # internal nodes of structured assets and have no entry in map_nodal_restr)
+    n_outer = len(target.map_nodal_restr)
+    nrows = list(range(len(raw.cType) - n_outer, len(raw.cType)))
+    if n_outer > len(raw.cType) or any(raw.cType[i] != "N" for i in nrows):
+        return out.fail("the last %d rows of the problem are not the nodal restrictions listed in map_nodal_restr" % n_outer)
     s0, x0, v0 = lpkit.solve(raw)
     if s0 != "optimal":
         return out.drop("reference_not_optimal")
